@@ -351,17 +351,36 @@ class EquityFam(ghost.Family):
 
 
 def exists_key(I, name, pred):
-    """a Bool equivalent to  exists k. pred(k)   (definitional axioms; keeps every query quantifier free)"""
+    """a Bool equivalent to  exists k. pred(k)   (definitional axioms; keeps every query quantifier free):
+         (forall k. pred(k) -> b)   and   (b -> pred(w))  for a witness constant w.
+    While a callee's raise conditions are being evaluated at a call site the witness is *lazy*: it becomes a key of
+    the path (and b -> pred(w) is assumed) only if the raising side is taken; on the other side b is simply false and
+    only the universal direction matters."""
     cache = I.__dict__.setdefault("_exists", {})
+    lazy = getattr(I, "in_callsite", 0) > 0
     if name in cache:
-        return cache[name][0]
+        e = cache[name]
+        if not lazy and not e["active"]:
+            activate_exists(I, e)
+        return e["b"]
     b = z3.Bool("EX[%s]" % name)
     w = z3.Const("wit[%s]" % name, K)
-    cache[name] = (b, w)
-    I.add_key(w)
-    I.assume(z3.Implies(b, pred(w)))
+    e = {"b": b, "w": w, "pred": pred, "active": False}
+    cache[name] = e
     I.assume_pw(lambda k: z3.Implies(pred(k), b))
+    if lazy:
+        I.__dict__.setdefault("_pending_exists", []).append(e)
+    else:
+        activate_exists(I, e)
     return b
+
+
+def activate_exists(I, e):
+    if e["active"]:
+        return
+    e["active"] = True
+    I.add_key(e["w"])
+    I.assume(z3.Implies(e["b"], e["pred"](e["w"])))
 
 
 # ------------------------------------------------------------------ symbolic pre-states
